@@ -236,21 +236,51 @@ class Forest:
         return [self.cell(i) for i in range(len(self.objs))]
 
     def sync(self, model_state):
-        """After an operation: register objects the call created, at the ids the model gave them
-        (matched by label). Returns a list of problems (strings)."""
+        """After an operation: register the objects the call created at the ids the model gave them. A fresh model
+        element that has a parent is located by POSITION (its index in the model parent's child list -> the
+        implementation parent's .contents at that index), so look-alike labels cannot confuse the matching; a fresh
+        model element without parent is a detached temporary of the call and has no implementation counterpart.
+        Returns a list of problems (strings); any real divergence then shows up in compare_states."""
         problems = []
         n = len(self.objs)
-        fresh = {}
-        for i in range(n, len(model_state)):
-            fresh["".join(map(chr, model_state[i][8]))] = i
-        placed = self.discover(fresh)
-        extra = placed.pop(None, None)
-        for i in range(n, len(model_state)):
-            if i in placed:
-                self.ids[id(placed[i])] = i
-                self.objs.append(placed[i])
-            else:
-                self.objs.append(None)      # exists only in the model (an unreachable temporary)
+        total = len(model_state)
+        slots = {}
+        pending = list(range(n, total))
+        for _ in range(total - n + 1):
+            rest = []
+            for i in pending:
+                par = model_state[i][2]
+                if not par:
+                    slots[i] = None
+                    continue
+                p = par[0]
+                pobj = self.objs[p] if p < n else slots.get(p, "wait")
+                if pobj == "wait":
+                    rest.append(i)
+                    continue
+                obj = None
+                if pobj is not None and isinstance(pobj, Tag) and i in model_state[p][3]:
+                    idx = model_state[p][3].index(i)
+                    if idx < len(pobj.contents) and id(pobj.contents[idx]) not in self.ids:
+                        obj = pobj.contents[idx]
+                if obj is None:
+                    problems.append("fresh model element %d (label %r) has no implementation element at its position" % (
+                        i, "".join(map(chr, model_state[i][8]))))
+                slots[i] = obj
+            pending = rest
+            if not pending:
+                break
+        for i in pending:
+            slots[i] = None
+        for i in range(n, total):
+            o = slots.get(i)
+            if o is not None and id(o) not in self.ids:
+                self.ids[id(o)] = i
+            elif o is not None:
+                o = None
+            self.objs.append(o)
+        extra = self.discover({})
+        extra = extra.get(None) if extra else None
         if extra is not None:
             problems.append("implementation created an element the model has no counterpart for: %r" % label_of(extra))
             self.add(extra)
